@@ -187,6 +187,8 @@ def explore(ctx):
             uout = rng.choice(OUT_BAD)
         elif mode == 'unsupported':
             uin = rng.choice(['m', 'kg', 'erg/cm2/s', 's'])
+        if mode in ('omit', 'mistype', 'badout', 'unsupported') and rng.random() < 0.2:
+            vals = []                       # nothing to sum: what is wrong with the call is still wrong
         info = {'values': [str(v) for v in vals], 'input_unit': uin, 'output_unit': uout,
                 'metadata': {k: [str(v[0]), v[1]] for k, v in meta.items()}}
         obs = run_impl(vals, uin, uout, meta)
@@ -201,6 +203,10 @@ def explore(ctx):
                 fails.append('result is in %s, requested %s' % (obs[2], UNITS[uout][0]))
             if mode in ('badout',):
                 fails.append('a non-flux output unit produced a number')
+            if mode == 'unsupported':
+                fails.append('an unsupported input unit (%s) produced a number: %r %s' % (uin, obs[1], obs[2]))
+                ctx.oracle_failure(info, fails)
+                continue
             try:
                 tb = textbook(vals, uin, uout, meta)
                 tol = 3e-5 if fam == 'perbeam' else 1e-9
@@ -233,6 +239,26 @@ def explore(ctx):
                 o3 = run_impl(vals2, uin2, uout, meta2)
                 if o3[0] != 'ok' or not close(o3[1], obs[1], 1e-9):
                     fails.append('depends on the units of equal physical inputs: %r in (%s, %s) vs %r' % (o3, uin2, meta2, obs[1]))
+            # the same NUMBERS in other units are other physical inputs: a second call must not remember the first
+            if meta:
+                meta3, changed = {}, False
+                for k, q in meta.items():
+                    pool = ANGLES if UNITS[q[1]][3] == D_ANG else (LENGTHS if UNITS[q[1]][3] == D_LEN else (FREQS if UNITS[q[1]][3] == D_FREQ else [q[1]]))
+                    other = [p_ for p_ in pool if p_ != q[1] and UNITS[p_][2] == UNITS[q[1]][2]]
+                    if other and k in need:
+                        meta3[k] = (q[0], rng.choice(other))
+                        changed = True
+                    else:
+                        meta3[k] = q
+                if changed:
+                    o4 = run_impl(vals, uin, uout, meta3)
+                    try:
+                        tb4 = textbook(vals, uin, uout, meta3)
+                        if o4[0] != 'ok' or not close(o4[1], tb4, 3e-5 if fam == 'perbeam' else 1e-9):
+                            fails.append('after a call with %s, the call with the same numbers in other units %s gives %r, textbook %r' % (
+                                {k: meta[k][1] for k in meta}, {k: meta3[k][1] for k in meta3}, o4, tb4))
+                    except KeyError:
+                        pass
         if fails:
             ctx.oracle_failure(info, fails)
             continue
